@@ -3,6 +3,8 @@
 package main
 
 import (
+	"encoding/json"
+
 	limited_rationality "github.com/Azbesciak/RealDecisionMaker/lib/logic/limited-rationality"
 	"github.com/Azbesciak/RealDecisionMaker/lib/logic/limited-rationality/majority"
 	"github.com/Azbesciak/RealDecisionMaker/lib/model"
@@ -72,6 +74,36 @@ func init() {
 				delete(mp["weights"].(J), q.Problem.Criteria[0].Id)
 			case k < 9:
 				q.Body["choseToMake"] = []string{}
+			}
+			if r.chance(0.12) {
+				// drop-out tie groups of chosen sizes (k-way group followed by j-way group, …): draws allowed, fixed
+				// order, every criterion constant inside a group and growing from group to group
+				known := q.Body["knownAlternatives"].([]interface{})
+				var ch []string
+				level := 0.0
+				for i := 0; i < len(known); {
+					k := r.rangeInt(1, 4)
+					for j := 0; j < k && i < len(known); j, i = j+1, i+1 {
+						a := known[i].(J)
+						for _, cj := range q.Body["criteria"].([]interface{}) {
+							v := level
+							if cj.(J)["type"] == "cost" {
+								v = -level
+							}
+							a["criteria"].(J)[cj.(J)["id"].(string)] = v
+						}
+						ch = append(ch, a["id"].(string))
+					}
+					level++
+				}
+				q.Body["choseToMake"] = ch
+				for _, cj := range q.Body["criteria"].([]interface{}) {
+					delete(cj.(J), "valuesRange")
+				}
+				mp["drawResolution"] = "allow"
+				delete(mp, "currentChoice")
+				delete(mp, "randomAlternativesOrdering")
+				o.count("shaped-tie-groups")
 			}
 			dm := q.bind()
 			d, msg := prepareDMP(dm)
@@ -156,6 +188,48 @@ func init() {
 				o.Spec(m, L(A("check-c11"), wcritsSX(*wc), altsSX(order), Str(params.DrawResolution), majEntriesSX(rk)))
 			} else {
 				o.count("ill-conditioned")
+			}
+
+			// --- the configured policy / current choice / ordering must still decide after biases changed the
+			//     criteria: whole request with non-adding biases through the real pipeline, spec replayed with the
+			//     REQUEST's configuration on the state that reached Evaluate
+			if r.chance(0.35) && len(d.Criteria) >= 2 {
+				q2 := cloneJ(q.Body)
+				var bl []interface{}
+				for i, nb := 0, r.rangeInt(1, 2); i < nb; i++ {
+					name := []string{"criteriaOmission", "criteriaOmission", "preferenceReversal", "fatigue"}[r.Intn(4)]
+					pr := biasPropsJSON(r, name, q.Problem)
+					if name == "criteriaOmission" {
+						pr["max"] = len(d.Criteria) - 1 - i
+						delete(pr, "min")
+						pr["ratio"] = 0.5
+					}
+					bl = append(bl, J{"name": name, "props": pr})
+				}
+				q2["biases"] = bl
+				js2, _ := json.Marshal(q2)
+				var dm2 model.DecisionMaker
+				if json.Unmarshal(js2, &dm2) == nil {
+					tr := tracedDecide(&dm2)
+					if tr.Err == "" && tr.Eval != nil && len(tr.Eval.Live.Criteria) >= 1 {
+						dF := tr.Eval.Live
+						if pF, ok := dF.MethodParameters.(majority.MajorityHeuristicParams); ok {
+							reqParams := params // configuration as the request states it
+							reqParams.Weights = pF.Weights
+							var orderF []model.AlternativeWithCriteria
+							msgF := recoverErr(func() {
+								cur, rest := limited_rationality.GetAlternativesSearchOrder(dF, &reqParams, utils.RandomBasedSeedValueGenerator(reqParams.RandomSeed))
+								orderF = append([]model.AlternativeWithCriteria{cur}, rest...)
+							})
+							wcF := dF.Criteria.ZipWithWeights(&pF.Weights)
+							if msgF == "" && c11WellConditioned(wcF, orderF) {
+								m2 := Meta{Case: c, Stage: "check-c11-after-biases", Input: J{"request": q2}, Key: string(js2), GoOut: heurRankingJSON(&tr.Choice.Result)}
+								o.Spec(m2, L(A("check-c11"), wcritsSX(*wcF), altsSX(orderF), Str(params.DrawResolution), majEntriesSX(&tr.Choice.Result)))
+								o.count("after-biases")
+							}
+						}
+					}
+				}
 			}
 
 			// --- stage: compare() on a random pair of known alternatives
